@@ -20,10 +20,20 @@ BASE = [("isi", {}), ("spike", {}), ("spike", {"RI": True}), ("sync", {}), ("syn
 
 def plan(tier):
     if tier == "quick":
-        specs = [(2, [("dense", 1, 5), ("bounded", 3, 6, 7)], MRTS_Q), (3, [("dense", 1, 3)], MRTS_Q[::2])]
+        specs = [(2, [("dense", 1, 5)], MRTS_Q), (3, [("dense", 1, 3)], MRTS_Q[::2])]
     else:
         specs = [(2, [("dense", 1, 7), ("bounded", 3, 8, 10)], MRTS_T), (3, [("dense", 1, 4)], MRTS_Q)]
     tasks, descs = [], []
+    mixed_ks = (8,) if tier == "quick" else (8, 10, 11)
+    for be in ("py", "pyx"):
+        for sh in range(32):
+            tasks.append({"backend": be, "mode": "mixed", "ks": list(mixed_ks), "shard": sh,
+                          "nshards": 32, "menu": [0.0]})
+    descs.append({"regime": "mixed-rate triples", "clocks": list(mixed_ks),
+                  "states": pairs.mixed_rate_count(mixed_ks),
+                  "what": "two trains with <=2 spikes x a third train in {empty, every tick, every "
+                          "second tick}: the pair-wise and the pooled automatic thresholds differ "
+                          "enough to change coincidences; only the 'auto' relations are checked"})
     for N, regimes, menu in specs:
         tasks += pairs.regime_tasks(N, regimes, ["py", "pyx"], extra={"menu": menu}, nshards=48)
         d, _ = pairs.describe_regimes(regimes, N)
@@ -66,7 +76,7 @@ def thresh_model(trains, edges):
     return math.sqrt(float(ms)) / O.SCALE, min(pool) / float(O.SCALE)
 
 
-def evaluate(r, trains, edges, menu, be, rank=()):
+def evaluate(r, trains, edges, menu, be, rank=(), auto_only=False):
     import pyspike as spk
     from pyspike.isi_lengths import default_thresh
     sts = [spk.SpikeTrain(t, edges) for t in trains]
@@ -92,7 +102,7 @@ def evaluate(r, trains, edges, menu, be, rank=()):
         viol("default_thresh", {}, te_, th, "automatic threshold is not the root mean square of "
              "the pooled inter-spike-interval lengths")
         return
-    for name, kw in BASE:
+    for name, kw in (BASE if not auto_only else [b for b in BASE if b[0] in ("sync", "order")]):
         try:
             chain = []
             om = observe(name, sts, kw)           # MRTS omitted
@@ -204,6 +214,17 @@ def check_state(r, k, masks, task):
 
 
 def run_task(task):
+    if task.get("mode") == "mixed":
+        r = Result()
+        for k, masks in pairs.mixed_rate_triples(tuple(task["ks"]), 2, task["shard"],
+                                                 task["nshards"]):
+            r.states += 1
+            r.transitions += 1
+            r.sigs.add(lattice.signature(k, masks))
+            trains = [lattice.times(m) for m in masks]
+            evaluate(r, trains, lattice.edges(k), [0.0], task["backend"],
+                     (k, pairs.nspikes(masks)), auto_only=True)
+        return r
     return pairs.run_states(task, check_state, ID)
 
 
